@@ -12,6 +12,10 @@ CHECKS = [
   "level_text": "TLC checks on every byte string of <= 2 (quick) / 3 (thorough) bytes that the TLA+ codec (spec/ScriptNum.tla over spec/BigNat.tla) is a bijection between minimal strings and integers, that non-minimal = a shorter encoding exists, and that it agrees with native integer arithmetic; TLC then validates every recorded call of the real CScriptNum constructor / serialize / Value conversions (exhaustive to 2/3 bytes, boundary products and stratified random 3-6 byte strings, integer ranges) against that codec.",
   "level_note": "The property's own quantifier is the full 2^32 enumeration; here the implementation is covered exhaustively to 2 (3) bytes and by boundary products {00,01,7f,80,81,fe,ff}^n plus random strings beyond; a defect confined to 4-byte strings outside every boundary class and sample would be missed. Trusted: TLC, the harness's int64 -> sign/magnitude rendering.",
   "technique": "TLA+ codec spec model-checked exhaustively on short strings + TLC validation of recorded codec calls (impl -> spec)"},
+ {"id": "C10", "level": "model_checking",
+  "level_text": "TLC exhausts a scaled-limits model (spec/mc/MC_Limits.tla: every limit, every way of reaching it, L-1/L/L+1, three script versions) of the same ExecOp/Debugger operators that, with the real constants, judge recorded executions of the real code at the real boundaries (519/520/521-byte pushes, 999/1000/1001 items, 200/201/202 counted operations incl. multisig key counts and dead branches, 9,999/10,000/10,001-byte scripts, 19/20/21 keys, 4/5/6-byte operands, per-phase reset across scriptSig/scriptPubKey/P2SH redeem script), including the operation counter after every step.",
+  "level_note": "Boundary families are enumerated, not all scripts; multisig cases use 0-of-n or empty signatures (no transaction context). Trusted: the limit constants of Bitcoin as written in spec/ScriptVM.tla RealLimits, TLC, the harness projection.",
+  "technique": "TLA+ spec with scaled limits model-checked by TLC + TLC trace validation of boundary executions of the real code"},
 ]
 _pending = "check not built yet in this round (construction order in DESIGN.md section 10); not claimed until its TLA+ model and conformance harness exist"
 NOT_APPLICABLE = [{"property_id": "C%02d" % i, "reason": _pending} for i in range(1, 19) if "C%02d" % i not in {c["id"] for c in CHECKS}]
